@@ -182,7 +182,7 @@ def fromBytes (g : Guards) (s : Schema) : Nat → Cls → Bytes → R Node
   | 0, _, _ => .error .fuel
   | fuel+1, c, b =>
     match s.ty c with
-    | none => .error (.internal "schema")
+    | none => .error (.model "schema")
     | some ty =>
       match leafFrom g ty b with
       | some r => r
@@ -266,7 +266,7 @@ def fromBytes (g : Guards) (s : Schema) : Nat → Cls → Bytes → R Node
               let r ← fromKvu g s fuel [(kc, vc)] kvs []
               pure (.kvu r)
             | _ => .error .valueError
-        | _ => .error (.internal "unmodelled-class")
+        | _ => .error (.model "unmodelled-class")
 
 def fromAlts (g : Guards) (s : Schema) : Nat → List Cls → Nat → Bytes → R Node
   | 0, _, _, _ => .error .fuel
